@@ -17,6 +17,9 @@ TITLE = "Discrete differential operators satisfy their defining identities"
 BRIDGES = {
     "mouette/operators/mass.py::area_weight_matrix": ["mass_inner", "mass_outer", "area_weight_matrix_bridge", "mass_tail_order"],
     "mouette/operators/mass.py::volume_weight_matrix": ["volume_weight_matrix_bridge"],
+    "mouette/operators/mass.py::area_weight_matrix_faces": ["area_weight_matrix_faces_bridge"],
+    "mouette/operators/mass.py::volume_weight_matrix_cells": ["volume_weight_matrix_cells_bridge"],
+    "mouette/operators/mass.py::area_weight_matrix_edges": ["area_weight_matrix_edges_at"],
 }
 LEAN_MODULES = ["Mouette.Props.C08", "Mouette.Props.C08Source"]
 REQUIRED_THEOREMS = [
@@ -902,6 +905,13 @@ def search_on_break(rng, broken, mismatches):
 # =================================================================================================
 # translated fragment: the local index of the vertex opposite to an edge in cotan_edge_diagonal
 # =================================================================================================
+def _stub(ns, failed):
+    """Generated file written when a translation site of the CURRENT tree raised: no definitions, only the reasons"""
+    why = "\n".join("  " + f["site"] + ": " + str(f.get("detail", "")).replace("-/", "- /")[:300] for f in failed)
+    return ("/- STUB: the translator could not read the current source tree; no definition is emitted, so every bridge fails to build.\n"
+            + why + "\n-/\nnamespace Mouette.Generated." + ns + "\nend Mouette.Generated." + ns + "\n")
+
+
 def translate():
     body = ["namespace Mouette.Generated.C08\n"]
 
@@ -977,11 +987,15 @@ def translate():
     body.append("end Mouette.Generated.C08\n")
     if all(s["ok"] for s in sites):
         T.write_generated("C08Idx", "".join(body))
+    else:   # never leave the fragments of an earlier tree on disk: a stub without the definitions (the bridges then fail to build)
+        T.write_generated("C08Idx", _stub("C08", [s for s in sites if not s["ok"]]))
     # assembly loops read imperatively (vlib/gen/c07_translate.py) -> Generated/C08Src.lean, bridged in Props/C08Source.lean
     from ..gen import c07_translate as CT
     text, bsites, info = CT.translate_c08()
     if all(s["ok"] for s in bsites):
         T.write_generated("C08Src", text)
+    else:
+        T.write_generated("C08Src", _stub("C08Src", [s for s in bsites if not s["ok"]]))
     return sites + bsites
 
 
@@ -996,9 +1010,6 @@ SOURCE_MAP.update({
     _LAP + "laplacian_triangles": "modelled", _LAP + "laplacian_edges": "modelled",
     _LAP + "volume_laplacian": "modelled", _LAP + "laplacian_tetrahedra": "modelled",
     "mouette/operators/gradient_op.py::gradient": "modelled",
-    "mouette/operators/mass.py::area_weight_matrix_faces": "modelled",
-    "mouette/operators/mass.py::area_weight_matrix_edges": "modelled",
-    "mouette/operators/mass.py::volume_weight_matrix_cells": "modelled",
     "mouette/operators/adjacency.py::adjacency_matrix": "modelled",
     "mouette/operators/adjacency.py::vertex_to_edge_operator": "modelled",
     "mouette/operators/adjacency.py::vertex_to_face_operator": "modelled",
